@@ -24,7 +24,7 @@ PROP = "C14"
 
 OP_KINDS = ["add_inst", "add_str", "add_file", "rm_idx", "rm_idxs", "rm_inst", "rm_insts", "set_allowed",
             "set_required", "dedup", "reindex"]
-FOREIGN_KINDS = ["f_set_elements", "f_add_elements", "f_reset", "f_set_pseudo", "f_species"]
+FOREIGN_KINDS = ["f_set_elements", "f_add_elements", "f_reset", "f_set_pseudo", "f_species", "f_add_pseudo"]
 FOREIGN_LISTS = [["X", "Y", "Z"], ["E", "H", "HE", "C", "N", "O", "S", "SI"], ["e", "H", "He", "Co", "Ca", "Cl", "O"],
                  ["H"], ["h", "c", "o"]]
 
@@ -186,10 +186,16 @@ class Sim:
             alts = c["alt"].get(key, [])
             if alts and (self.step + j) % 2:
                 name = alts[(self.step + j) % len(alts)]  # an equivalent spelling of the same species
-            got = net.where_species(name, mode)
+            arg = name
+            if (self.step + j) % 5 == 0:
+                # a Species object instead of a name; for ices in the other surface-prefix convention
+                self.install_lists(n)
+                arg = self.make_species(n, key, altice=W.is_ice(key))
+                self.alive.append(arg)
+            got = net.where_species(arg, mode)
             exp = mod.where(key, mode)
             if got != exp:
-                raise Violation("where-species-mismatch", f"net {n}: where_species({name!r}, {mode!r}) = {got}, model {exp}")
+                raise Violation("where-species-mismatch", f"net {n}: where_species({arg!r}, {mode!r}) = {got}, model {exp}")
         # where_reaction / membership for one held reaction per step (documented equality)
         if mod.order:
             k = self.step % len(mod.order)
@@ -492,6 +498,10 @@ class Sim:
             return "ok", False
         if kind == "f_set_pseudo":
             N.Species.set_known_pseudoelements(list(op["elements"]))
+            return "ok", False
+        if kind == "f_add_pseudo":
+            # moves names that are elements into the pseudo-element list (H2 + CR -> ... drops CR; now maybe H too)
+            N.Species.add_known_pseudoelements(list(op["elements"]))
             return "ok", False
         if kind == "f_reset":
             N.Species.reset()
